@@ -18,8 +18,17 @@ def classify(kf, rec) -> bool:
     cl = kf.get("classifier")
     if cl == "first-word-overflows-at-c0":
         # D-11: strict bound fails only because the first word does not fit at c0 > c1
+        if "i1" in c:      # paragraph level: line 0 of a paragraph whose first word does not fit beside the longer first-line indent
+            first = (c.get("text", "").split() or [""])[0]
+            return "line 0 is" in rec["what"] and len(c["i1"]) > len(c["i2"]) and len(c["i1"]) + len(first) > c["width"]
         ws = c.get("words") or []
         return bool(ws) and c["c0"] > c["c1"] and c["c0"] + len(ws[0]) > c["width"] and rec["what"].startswith("strict-width")
+    if cl == "closing-tag-unindented":
+        import re
+        return "does not carry its indent" in rec["what"] and bool(re.match(r"^(?:\{% /|\{# /|\{\{ /|<!-- /)", c.get("line", "")))
+    if cl == "hard-break-backslash-over-width":
+        # D-57: the line was filled to exactly the width and the backslash of the hard break was appended afterwards
+        return bool(c.get("hard_break")) and len(c.get("line", "")) == c.get("width", 0) + 1
     return False
 
 
@@ -122,6 +131,39 @@ def run(chk: Check) -> None:
             chk.fail("property", case, "strict-width: line 0 measured from the real first-line column exceeds the width although breakable", classify)
     chk.count(len(spec_cases))
     chk.port_stat("spec:wrap_ok on implementation", len(spec_cases), nfail)
+    # ---- paragraph level: the Markdown line wrapper (word splitter with atomic constructs, tag segments, hard breaks, indents) ----
+    import wports
+    pcases, pouts = wports.port_line_wrap_to_width(chk, 600 if tier == "quick" else 6000, md=True)
+    # fixed reproducer of finding D-57
+    from flowmark.linewrapping import line_wrappers as lw
+    pcases.append({"t": "aaaa bbbb cc\\\ndddd", "w": 12, "i1": "", "i2": ""})
+    pouts[id(pcases[-1])] = lw.line_wrap_to_width(width=12, is_markdown=True)("aaaa bbbb cc\\\ndddd", "", "")
+    splitter = tw.get_html_md_word_splitter()
+    npb = 0
+    for c in pcases:
+        out = pouts.get(id(c))
+        if out is None or c["w"] <= 0:
+            continue
+        lines = out.split("\n")
+        if len(lines) >= 2:
+            chk.nontrivial((c["t"], c["w"], c["i1"], c["i2"], "para"))
+        for k, l in enumerate(lines):
+            ind = c["i1"] if k == 0 else c["i2"]
+            if l.strip() and not l.startswith(ind.rstrip() if not l[len(ind.rstrip()):].strip() else ind):
+                npb += 1
+                chk.fail("property", {"text": c["t"], "width": c["w"], "i1": c["i1"], "i2": c["i2"], "out": out, "line": l},
+                         f"paragraph line {k} does not carry its indent {ind!r}", classify)
+                break
+            if len(l) > c["w"]:
+                body = l[len(ind):] if l.startswith(ind) else l
+                hard = body.endswith("\\")
+                words = splitter(body[:-1] if hard else body)
+                if len(words) > 1:
+                    npb += 1
+                    chk.fail("property", {"text": c["t"], "width": c["w"], "i1": c["i1"], "i2": c["i2"], "out": out, "line": l, "hard_break": hard},
+                             f"paragraph line {k} is {len(l)} wide (width {c['w']}) although it holds {len(words)} breakable words", classify)
+                    break
+    chk.port_stat("spec: indent and width of every line of line_wrap_to_width(md)", len(pcases), npb)
     # nowrap clause on the implementation
     for c in cases:
         if c["width"] <= 0 and c["rw"] and c["dw"] and id(c) in outs:
